@@ -529,8 +529,10 @@ func (p *Params) Connect(b *Block, node *Node, view UTXO) (spent []OutPoint, cre
 	for ti, t := range txs {
 		id := t.TxID()
 		// BIP30: a transaction may not overwrite an existing unspent output
+		// (Core keeps no coin for an unspendable output - OP_RETURN first or longer than 10,000 bytes - so such a
+		// leftover does not count)
 		for oi := range t.Out {
-			if _, ok := lookup(OutPoint{id, uint32(oi)}); ok {
+			if c, ok := lookup(OutPoint{id, uint32(oi)}); ok && !(len(c.Script) > 0 && c.Script[0] == 0x6a) && len(c.Script) <= 10000 {
 				return nil, nil, "bad-txns-BIP30"
 			}
 		}
